@@ -91,7 +91,10 @@ def gen(rng, tier, index):
     }
     ok = fault_free or rng.random() < 0.3          # mostly-successful partner
     def rx_script():
-        return [{"result": "yes" if (ok or rng.random() < 0.75) else "no", "delay": rng.choice([1, 2, 5, 20])}
+        # (a PHY may take longer than the 12 ms of the neighbouring states to answer a detection request: Rx.Detect.Active and
+        # SS.Inactive.Disconnect.Detect have no timeout of their own)
+        return [{"result": "yes" if (ok or rng.random() < 0.75) else "no",
+                 "delay": rng.choice([1, 2, 5, 20, 20, T12 + rng.choice([7, 60, T12 // 2, T12 + 40])])}
                 for _ in range(rng.randint(1, 4))]
     def lfps_script():
         out = []
